@@ -68,6 +68,11 @@ Guard(e, s) ==
       [] e.ev = "prepare"     -> GPrepare(s)
       [] e.ev = "yielded"     -> GPrepare(s)
       [] e.ev = "path"        -> GPath(s, e.g, e.lst)
+      \* EvaluationReadsOnly: a public evaluation (model / model_contrib / model_full_contrib) ends with every
+      \* exposed profile array (pressure levels and layers, temperature, altitude grid, layer thickness, density,
+      \* gravity, scale height, mixing ratios, mu) exactly as initialize_profiles left it, and with the stellar
+      \* spectrum exactly as star.initialize left it; the recorder puts the names of arrays that changed into c
+      [] e.ev \in {"model_end", "model_contrib_end", "model_full_contrib_end"} -> e.c = ""
       [] OTHER                -> TRUE
 Apply(e, s) ==
     CASE e.ev = "setparam"    -> ASetParam(s)
